@@ -209,7 +209,10 @@ def atom_case(ctx, forms, noise, n, variant, m, cells, corrupt=None):
 # ------------------------------------------------------------------------------------------------
 # (B) floating point reconstruction
 # ------------------------------------------------------------------------------------------------
-def recon_case(ctx, s, idx, bmkind="grid"):
+def recon_case(ctx, s, idx, bmkind="grid", adaptive=False):
+    """adaptive=True: the same reconstruction with adaptive=True and the controller pinned to dt_min = dt with
+    tolerances nobody can meet: every trial is rejected down to dt_min and then accepted, so the forward and the reverse
+    solve both walk the uniform grid of half steps dt/2 (the property is not restricted to fixed steps)."""
     noise, b, d, m, hden, n = s["noise"], s["batch"], s["d"], s["m"], s["hden"], s["n"]
     dyadic = hden & (hden - 1) == 0
     dt = 1.0 / hden
@@ -219,21 +222,26 @@ def recon_case(ctx, s, idx, bmkind="grid"):
     sde = H.SmoothSDE(noise, d, m, seed=ctx.seed * 31 + idx)
     y0 = torch.randn(b, d, generator=gen, dtype=F64)
     ts = torch.tensor([t0 + j * dt for j in range(n + 1)], dtype=F64)
+    akw = dict(adaptive=True, dt_min=dt, rtol=1e-30, atol=1e-30) if adaptive else {}
     if bmkind == "grid":
-        incs = torch.randn(n, b, m, generator=gen, dtype=F64) * math.sqrt(dt)
-        base = H.GridBrownian(t0, dt, incs)
+        if adaptive:             # the adaptive loop asks for full steps and half steps: a grid of half steps
+            incs = torch.randn(2 * n, b, m, generator=gen, dtype=F64) * math.sqrt(dt / 2)
+            base = H.GridBrownian(t0, dt / 2, incs)
+        else:
+            incs = torch.randn(n, b, m, generator=gen, dtype=F64) * math.sqrt(dt)
+            base = H.GridBrownian(t0, dt, incs)
     else:
         base = torchsde.BrownianInterval(t0=float(ts[0]), t1=float(ts[-1]), size=(b, m), dtype=F64,
                                          entropy=ctx.seed * 1000 + idx)
     bm = H.RecordingBrownian(base)
-    key = dict(part="recon", noise=noise, grid="dyadic" if dyadic else "nondyadic", bm=bmkind)
+    key = dict(part="recon" if not adaptive else "recon_adaptive", noise=noise, grid="dyadic" if dyadic else "nondyadic", bm=bmkind)
     try:
         with torch.no_grad(), H.quiet():
-            ys, (f, g, z) = torchsde.sdeint(sde, y0, ts, bm=bm, method="reversible_heun", dt=dt, extra=True)
+            ys, (f, g, z) = torchsde.sdeint(sde, y0, ts, bm=bm, method="reversible_heun", dt=dt, extra=True, **akw)
             nq_f = len(bm.log)
             ysr, (fr, gr, zr) = torchsde.sdeint(H.NegReversed(sde), ys[-1], -ts.flip(0), bm=ReverseBrownian(bm),
                                                 method="reversible_heun", dt=dt, extra=True,
-                                                extra_solver_state=(-f, -g, z))
+                                                extra_solver_state=(-f, -g, z), **akw)
     except Exception as e:
         H.violation_once(ctx, dict(key, clause="valid_call_raised"),
                          f"forward/reverse solve raised {type(e).__name__}: {str(e)[:200]}",
@@ -242,10 +250,10 @@ def recon_case(ctx, s, idx, bmkind="grid"):
     scale = float(ys.abs().max())
     err = float((ysr.flip(0) - ys).abs().max())
     err_extra = float((zr - y0).abs().max())
-    budget = n * 8 * EPS * scale
-    ctx.case(("recon", noise, b, d, m, hden, n, bmkind),
+    budget = (2 if adaptive else 1) * n * 8 * EPS * scale
+    ctx.case(("recon", noise, b, d, m, hden, n, bmkind, adaptive),
              sample=dict(key, batch=b, d=d, m=m, hden=hden, n=n, err=err, budget=budget))
-    sliver = nq_f != n
+    sliver = nq_f != (3 * n if adaptive else n)
     if err > budget or err_extra > budget or not bool(torch.isfinite(ysr).all()):
         if not dyadic:
             key["effect"] = "sliver_step" if sliver else "other"
@@ -291,6 +299,9 @@ def run(ctx):
             nondy["sliver"] += bool(sliver)
         if dy and s["n"] <= 16 and idx % 3 == 0:
             err, budget, _ = recon_case(ctx, s, idx, "interval")
+            worst = max(worst, err / budget)
+        if dy and s["n"] <= 16 and idx % 2 == 0:
+            err, budget, _ = recon_case(ctx, s, idx, "grid" if idx % 4 == 0 else "interval", adaptive=True)
             worst = max(worst, err / budget)
     ctx.notes["worst_error_over_budget_dyadic"] = worst
     ctx.notes["nondyadic_dt"] = nondy
